@@ -168,6 +168,7 @@ func checkC08(c *Ctx) {
 	ea.runE5("ERR-E5-sticky")
 	checkMergeOrder(c)
 	checkIndexIterGuard(c)
+	checkNodeKeyNil(c)
 	checkTraversalTable(c)
 	checkFastIteratorDomain(c)
 }
@@ -912,4 +913,77 @@ func checkIndexIterGuard(c *Ctx) {
 		}
 	}
 	c.decide(R, "isLatestTreeVersion compares the tree's version with the latest version", l.pos(isLatest.Pos()), okL && nL > 0, "t.version == latest", "isLatestTreeVersion is no longer `tree version == latest version`")
+}
+
+// checkNodeKeyNil: the read API of ImmutableTree is also the read API of the
+// working tree (MutableTree embeds *ImmutableTree), and a node created by an
+// uncommitted write has no node key yet (`nodeKey == nil` until SaveVersion).
+// Every dereference of Node.nodeKey in a method of ImmutableTree (or a closure
+// nested in one) must therefore be on the non-nil edge of a test of that same
+// field of that same node; otherwise iterating / reading the working state
+// panics as soon as it meets an uncommitted node.
+func checkNodeKeyNil(c *Ctx) {
+	l := c.L
+	const R = "DOM-nodekey-nil"
+	c.rule(R, "ImmutableTree's read API dereferences a node's key only after testing it for nil (uncommitted nodes have none)", 2)
+	fNK := l.Field("", "Node", "nodeKey")
+	immT := l.NamedType("", "ImmutableTree")
+	if fNK == nil || immT == nil {
+		c.anchorMissing(R, "Node.nodeKey / ImmutableTree")
+		return
+	}
+	n := 0
+	for _, fn := range l.SrcFuncs {
+		top := fn
+		for top.Parent() != nil {
+			top = top.Parent()
+		}
+		r := top.Signature.Recv()
+		if r == nil {
+			continue
+		}
+		if nt := derefNamed(r.Type()); nt == nil || nt.Obj() != immT.Obj() {
+			continue
+		}
+		allInstrs(fn, func(in ssa.Instruction) {
+			// dereference sites: field access through the loaded pointer, or a method call on it
+			var ptr ssa.Value
+			switch x := in.(type) {
+			case *ssa.FieldAddr:
+				ptr = x.X
+			case *ssa.Call:
+				if f := staticCallee(&x.Call); f != nil && f.Signature.Recv() != nil && len(x.Call.Args) > 0 {
+					ptr = x.Call.Args[0]
+				}
+			}
+			if ptr == nil || !isLoadOfField(fNK)(stripTrivial(ptr)) {
+				return
+			}
+			n++
+			path := accessPath(stripTrivial(ptr))
+			ok := false
+			for _, b := range fn.Blocks {
+				iff := ifOf(b)
+				if iff == nil {
+					continue
+				}
+				v, nn, isNil := nilCond(iff.Cond)
+				if !isNil {
+					continue
+				}
+				v = stripTrivial(v)
+				if !isLoadOfField(fNK)(v) || accessPath(v) != path {
+					continue
+				}
+				if edgeDominates(b, nn, in.Block()) {
+					ok = true
+				}
+			}
+			c.decide(R, l.fname(fn)+" dereferences "+path, l.ipos(in), ok, "on the `nodeKey != nil` edge",
+				"Node.nodeKey is dereferenced without a nil test: on a working tree (MutableTree embeds this API) a leaf created by an uncommitted Set has nodeKey == nil, and the call panics")
+		})
+	}
+	if n < 2 {
+		c.anchorMissing(R, "fewer than 2 nodeKey dereferences in ImmutableTree's methods")
+	}
 }
